@@ -74,6 +74,8 @@ void All() {
   FromStrings<std::chrono::time_point<std::chrono::system_clock, std::chrono::duration<int32_t>>>();
   FromStrings<std::chrono::seconds>(); FromStrings<std::chrono::nanoseconds>(); FromStrings<std::chrono::milliseconds>(); FromStrings<std::chrono::hours>();
   FromStrings<std::chrono::duration<int8_t, std::ratio<3600>>>(); FromStrings<std::chrono::duration<uint64_t>>();
+  // representations narrower than the number of their units in one second (R15.10)
+  FromStrings<std::chrono::duration<int8_t, std::milli>>(); FromStrings<std::chrono::time_point<std::chrono::system_clock, std::chrono::duration<int16_t, std::micro>>>();
   FromStrings<CRawTime>(); FromStrings<std::tm>();
   ToStrings<std::string>(); ToStrings<std::wstring>(); ToStrings<std::u16string>(); ToStrings<std::u32string>();
   // binary timestamps
